@@ -76,55 +76,61 @@ theorem DelsMono.append (l rows : List Delivery) : DelsMono l (l ++ rows) := by
 /-- what `deliverAll` does to the database: it appends delivery rows, nothing else -/
 theorem deliverAll_shape {db : Db} {subs : List Sub} {m : Msg} {now : Time} {fwds : List Fwd}
     {db' : Db} {w : List Id} (h : deliverAll db subs m now fwds = .ok (db', w)) :
-    ∃ rows, db' = { db with dels := db.dels ++ rows } := by
+    ∃ rows, mkRows db subs m now fwds = .ok rows ∧ db' = { db with dels := db.dels ++ rows } ∧
+      w = fwds.map (·.subId) := by
   unfold deliverAll at h
-  simp only [bind, Except.bind] at h
+  simp only at h
   split at h
   · cases h
   · split at h
     · cases h
-    · cases hr : mkRows db subs m now fwds with
-      | error e => simp [hr] at h
-      | ok rows =>
-        simp only [hr] at h
+    · split at h
+      · cases h
+      · rename_i rows hr
         injection h with h
         injection h with h1 h2
-        exact ⟨rows, h1.symm⟩
+        exact ⟨rows, hr, h1.symm, h2.symm⟩
 
 theorem deliverAll_mono {db : Db} {subs : List Sub} {m : Msg} {now : Time} {fwds : List Fwd}
     {db' : Db} {w : List Id} (h : deliverAll db subs m now fwds = .ok (db', w)) :
     DelsMono db.dels db'.dels := by
-  obtain ⟨rows, rfl⟩ := deliverAll_shape h
+  obtain ⟨rows, _, rfl, _⟩ := deliverAll_shape h
   exact DelsMono.append _ _
 
 /-- completing a row is monotone -/
 theorem rowMono_complete (d : Delivery) (t : Time) : RowMono d { d with completedAt := some t } :=
   ⟨rfl, rfl, rfl, rfl, rfl, fun _ => rfl, Nat.le_refl _⟩
 
+theorem markCompleted_mono (i : Id) (now : Time) (l : List Delivery) :
+    DelsMono l (markCompleted i now l) := by
+  unfold markCompleted
+  exact DelsMono.updateWhere _ _ _ (fun x _ => rowMono_complete x now)
+
+theorem dlForward_shape {db : Db} {d : Delivery} {dlt : Id} {now : Time} {fwds : List Fwd}
+    {db1 : Db} {w : List Id} (h : dlForward db d dlt now fwds = .ok (db1, w)) :
+    ∃ rows, db1 = { db with dels := db.dels ++ rows } := by
+  unfold dlForward at h
+  split at h
+  · split at h
+    · injection h with h; injection h with h1 _; exact ⟨[], by simp [← h1]⟩
+    · cases h
+  · split at h
+    · split at h
+      · injection h with h; injection h with h1 _; exact ⟨[], by simp [← h1]⟩
+      · cases h
+    · split at h
+      · cases h
+      · obtain ⟨rows, _, h1, _⟩ := deliverAll_shape h
+        exact ⟨rows, h1⟩
+
 theorem deadLetter_shape {db : Db} {d : Delivery} {dlt : Id} {now : Time} {fwds : List Fwd}
     {db' : Db} {w : List Id} (h : deadLetter db d dlt now fwds = .ok (db', w)) :
     ∃ rows, db' = { db with dels := markCompleted d.id now (db.dels ++ rows) } := by
   unfold deadLetter at h
-  simp only [bind, Except.bind] at h
-  -- first stage: forwards
   split at h
   · cases h
-  · rename_i v hv
-    obtain ⟨db1, w1⟩ := v
-    simp only at h
-    have hshape : ∃ rows, db1 = { db with dels := db.dels ++ rows } := by
-      split at hv
-      · split at hv
-        · injection hv with hv; injection hv with h1 _; exact ⟨[], by simp [← h1]⟩
-        · cases hv
-      · split at hv
-        · split at hv
-          · injection hv with hv; injection hv with h1 _; exact ⟨[], by simp [← h1]⟩
-          · cases hv
-        · split at hv
-          · cases hv
-          · exact deliverAll_shape hv
-    obtain ⟨rows, rfl⟩ := hshape
+  · rename_i db1 w1 hf
+    obtain ⟨rows, rfl⟩ := dlForward_shape hf
     split at h
     · cases h
     · injection h with h
@@ -135,13 +141,235 @@ theorem deadLetter_mono {db : Db} {d : Delivery} {dlt : Id} {now : Time} {fwds :
     {db' : Db} {w : List Id} (h : deadLetter db d dlt now fwds = .ok (db', w)) :
     DelsMono db.dels db'.dels := by
   obtain ⟨rows, rfl⟩ := deadLetter_shape h
-  exact (DelsMono.append _ rows).trans
-    (by unfold markCompleted; exact DelsMono.updateWhere _ _ _ (fun x _ => rowMono_complete x now))
+  exact (DelsMono.append _ rows).trans (markCompleted_mono _ _ _)
 
 theorem deadLetter_other {db : Db} {d : Delivery} {dlt : Id} {now : Time} {fwds : List Fwd}
     {db' : Db} {w : List Id} (h : deadLetter db d dlt now fwds = .ok (db', w)) :
     db'.topics = db.topics ∧ db'.subs = db.subs ∧ db'.msgs = db.msgs ∧ db'.snaps = db.snaps := by
   obtain ⟨rows, rfl⟩ := deadLetter_shape h
   exact ⟨rfl, rfl, rfl, rfl⟩
+
+/-- the four tables an action on deliveries leaves alone -/
+def SameOther (db db' : Db) : Prop :=
+  db'.topics = db.topics ∧ db'.subs = db.subs ∧ db'.msgs = db.msgs ∧ db'.snaps = db.snaps
+
+theorem SameOther.refl (db : Db) : SameOther db db := ⟨rfl, rfl, rfl, rfl⟩
+theorem SameOther.trans {a b c : Db} (h₁ : SameOther a b) (h₂ : SameOther b c) : SameOther a c :=
+  ⟨h₂.1.trans h₁.1, h₂.2.1.trans h₁.2.1, h₂.2.2.1.trans h₁.2.2.1, h₂.2.2.2.trans h₁.2.2.2⟩
+
+/-! ### pull -/
+
+theorem pullLoop_mono (s : Sub) (now : Time) (maxBytes : Nat) (strict : Bool) (obs : PullObs) :
+    ∀ (cands : List Delivery) (i : Nat) (acc acc' : PullAcc),
+      pullLoop s now maxBytes strict obs i cands acc = .ok acc' →
+      DelsMono acc.db.dels acc'.db.dels ∧ SameOther acc.db acc'.db := by
+  intro cands
+  induction cands with
+  | nil =>
+    intro i acc acc' h
+    unfold pullLoop at h
+    injection h with h; subst h
+    exact ⟨DelsMono.refl _, SameOther.refl _⟩
+  | cons d r ih =>
+    intro i acc acc' h
+    unfold pullLoop at h
+    split at h
+    · cases h
+    · split at h
+      · exact ih _ _ _ h
+      · split at h
+        · split at h
+          · cases h
+          · rename_i db' w hdl
+            have := ih _ _ _ h
+            exact ⟨(deadLetter_mono hdl).trans this.1, SameOther.trans (deadLetter_other hdl) this.2⟩
+        · split at h
+          · cases h
+          · have := ih _ _ _ h
+            exact this
+
+theorem rowMono_lease (now : Time) (δ : Int) (d : Delivery) : RowMono d (leaseRow now δ d) :=
+  ⟨rfl, rfl, rfl, rfl, rfl, fun h => h, Nat.le_succ _⟩
+
+theorem applyLeases_mono (now : Time) (dl : List (Delivery × Int)) (l : List Delivery) :
+    DelsMono l (applyLeases now dl l) := by
+  unfold applyLeases
+  apply DelsMono.map
+  intro d
+  unfold applyLease
+  split
+  · exact rowMono_lease _ _ _
+  · exact RowMono.refl _
+
+theorem pull_mono {db : Db} {now : Time} {sub : String} {max maxBytes : Nat} {strict : Bool} {wait : Int}
+    {obs : PullObs} {o : TxOut PullRes} {now' : Time}
+    (h : pull db now sub max maxBytes strict wait obs = .ok (o, now')) :
+    DelsMono db.dels o.db.dels ∧ o.db.topics = db.topics ∧ o.db.msgs = db.msgs ∧ o.db.snaps = db.snaps := by
+  unfold pull at h
+  split at h
+  · cases h
+  · rename_i s _
+    simp only at h
+    split at h
+    · cases h
+    · split at h
+      · cases h
+      · split at h
+        · injection h with h; injection h with h1 _; subst h1
+          exact ⟨DelsMono.refl _, rfl, rfl, rfl⟩
+        · split at h
+          · cases h
+          · rename_i o' hd
+            injection h with h; injection h with h1 _; subst h1
+            unfold pullDeliver at hd
+            split at hd
+            · cases hd
+            · rename_i acc hl
+              injection hd with hd; subst hd
+              have := pullLoop_mono _ _ _ _ _ _ _ _ _ hl
+              refine ⟨this.1.trans (applyLeases_mono _ _ _), ?_, ?_, ?_⟩
+              · exact this.2.1
+              · exact this.2.2.2.1
+              · exact this.2.2.2.2
+
+/-! ### ack / nack / delay / sweep / publish -/
+
+theorem ack_mono {db : Db} {now : Time} {ids : List Id} {o : TxOut Nat} (h : ack db now ids = .ok o) :
+    DelsMono db.dels o.db.dels ∧ SameOther db o.db := by
+  unfold ack at h
+  injection h with h; subst h
+  exact ⟨DelsMono.updateWhere _ _ _ (fun x _ => rowMono_complete x now), SameOther.refl _⟩
+
+theorem rowMono_attemptAt (d : Delivery) (t : Time) : RowMono d { d with attemptAt := t } :=
+  ⟨rfl, rfl, rfl, rfl, rfl, fun h => h, Nat.le_refl _⟩
+
+theorem delay_mono {db : Db} {now : Time} {ids : List Id} {Δ : Int} {o : TxOut Nat}
+    (h : delay db now ids Δ = .ok o) : DelsMono db.dels o.db.dels ∧ SameOther db o.db := by
+  unfold delay at h
+  simp only at h
+  split at h
+  · injection h with h; subst h
+    exact ⟨DelsMono.updateWhere _ _ _ (fun x _ => rowMono_attemptAt x _), SameOther.refl _⟩
+  · injection h with h; subst h
+    exact ⟨DelsMono.updateWhere _ _ _ (fun x _ => rowMono_attemptAt x _), SameOther.refl _⟩
+
+theorem nackLoop_mono (now : Time) (delays : List (Id × Int)) (fwds : List (Id × List Fwd)) :
+    ∀ (rows : List Delivery) (acc acc' : NackAcc),
+      nackLoop now delays fwds rows acc = .ok acc' →
+      DelsMono acc.db.dels acc'.db.dels ∧ SameOther acc.db acc'.db := by
+  intro rows
+  induction rows with
+  | nil =>
+    intro acc acc' h
+    unfold nackLoop at h
+    injection h with h; subst h
+    exact ⟨DelsMono.refl _, SameOther.refl _⟩
+  | cons d r ih =>
+    intro acc acc' h
+    unfold nackLoop at h
+    split at h
+    · cases h
+    · split at h
+      · split at h
+        · cases h
+        · rename_i db' w hdl
+          have := ih _ _ h
+          exact ⟨(deadLetter_mono hdl).trans this.1, SameOther.trans (deadLetter_other hdl) this.2⟩
+      · split at h
+        · cases h
+        · have := ih _ _ h
+          refine ⟨DelsMono.trans ?_ this.1, SameOther.trans ⟨rfl, rfl, rfl, rfl⟩ this.2⟩
+          unfold setAttemptAt
+          exact DelsMono.updateWhere _ _ _ (fun x _ => rowMono_attemptAt x _)
+
+theorem nack_mono {db : Db} {now : Time} {ids : List Id} {delays : List (Id × Int)}
+    {fwds : List (Id × List Fwd)} {o : TxOut (Nat × Nat)} (h : nack db now ids delays fwds = .ok o) :
+    DelsMono db.dels o.db.dels ∧ SameOther db o.db := by
+  unfold nack at h
+  simp only at h
+  split at h
+  · cases h
+  · rename_i acc hl
+    injection h with h; subst h
+    exact nackLoop_mono _ _ _ _ _ _ hl
+
+theorem sweepLoop_mono (now : Time) (fwds : List (Id × List Fwd)) :
+    ∀ (rows : List Delivery) (db : Db) (wk : List Id) (db' : Db) (wk' : List Id),
+      sweepLoop now fwds rows db wk = .ok (db', wk') → DelsMono db.dels db'.dels ∧ SameOther db db' := by
+  intro rows
+  induction rows with
+  | nil =>
+    intro db wk db' wk' h
+    unfold sweepLoop at h
+    injection h with h; injection h with h1 _; subst h1
+    exact ⟨DelsMono.refl _, SameOther.refl _⟩
+  | cons d r ih =>
+    intro db wk db' wk' h
+    unfold sweepLoop at h
+    split at h
+    · cases h
+    · split at h
+      · cases h
+      · rename_i db1 w hdl
+        have := ih _ _ _ _ h
+        exact ⟨(deadLetter_mono hdl).trans this.1, SameOther.trans (deadLetter_other hdl) this.2⟩
+
+theorem dlSweep_mono {db : Db} {now : Time} {max : Nat} {victims : List Id} {fwds : List (Id × List Fwd)}
+    {o : TxOut Nat} (h : dlSweep db now max victims fwds = .ok o) :
+    DelsMono db.dels o.db.dels ∧ SameOther db o.db := by
+  unfold dlSweep at h
+  split at h
+  · cases h
+  · split at h
+    · cases h
+    · split at h
+      · cases h
+      · rename_i db' wk hl
+        injection h with h; subst h
+        exact sweepLoop_mono _ _ _ _ _ _ _ hl
+
+theorem publishOne_mono {db : Db} {t : Topic} {now : Time} {pm : PubMsg} {db' : Db} {w : List Id}
+    (h : publishOne db t now pm = .ok (db', w)) :
+    DelsMono db.dels db'.dels ∧ db'.topics = db.topics ∧ db'.subs = db.subs ∧ db'.snaps = db.snaps := by
+  unfold publishOne at h
+  split at h
+  · cases h
+  · simp only at h
+    obtain ⟨rows, _, h1, _⟩ := deliverAll_shape h
+    subst h1
+    exact ⟨DelsMono.append _ _, rfl, rfl, rfl⟩
+
+theorem publishLoop_mono (t : Topic) (tick : Int) :
+    ∀ (msgs : List PubMsg) (db : Db) (now : Time) (wk : List Id) (db' : Db) (wk' : List Id),
+      publishLoop t tick db now wk msgs = .ok (db', wk') →
+      DelsMono db.dels db'.dels ∧ db'.topics = db.topics ∧ db'.subs = db.subs ∧ db'.snaps = db.snaps := by
+  intro msgs
+  induction msgs with
+  | nil =>
+    intro db now wk db' wk' h
+    unfold publishLoop at h
+    injection h with h; injection h with h1 _; subst h1
+    exact ⟨DelsMono.refl _, rfl, rfl, rfl⟩
+  | cons pm r ih =>
+    intro db now wk db' wk' h
+    unfold publishLoop at h
+    split at h
+    · cases h
+    · rename_i db1 w h1
+      have a := publishOne_mono h1
+      have b := ih _ _ _ _ _ h
+      exact ⟨a.1.trans b.1, b.2.1.trans a.2.1, b.2.2.1.trans a.2.2.1, b.2.2.2.trans a.2.2.2⟩
+
+theorem publish_mono {db : Db} {now : Time} {topic : String} {tick : Int} {msgs : List PubMsg}
+    {o : TxOut (List Id)} (h : publish db now topic tick msgs = .ok o) :
+    DelsMono db.dels o.db.dels ∧ o.db.topics = db.topics ∧ o.db.subs = db.subs ∧ o.db.snaps = db.snaps := by
+  unfold publish at h
+  split at h
+  · cases h
+  · split at h
+    · cases h
+    · rename_i db' wk hl
+      injection h with h; subst h
+      exact publishLoop_mono _ _ _ _ _ _ _ _ hl
 
 end Mmmbbb
